@@ -164,13 +164,19 @@ func runnerChild(script string) int {
 		}
 	}
 	count := func(wait time.Duration) (int, bool) {
+		// waiting for the round to finish: slow Stop()s are released as they block
 		ch := make(chan int, 1)
 		go func() { ch <- r.GetServerCount() }()
-		select {
-		case c := <-ch:
-			return c, true
-		case <-time.After(wait):
-			return 0, false
+		deadline := time.After(wait)
+		for {
+			select {
+			case c := <-ch:
+				return c, true
+			case <-deadline:
+				return 0, false
+			case <-time.After(2 * time.Millisecond):
+				releaseBlocked()
+			}
 		}
 	}
 	peek := func() {
@@ -184,14 +190,27 @@ func runnerChild(script string) int {
 			e.emit("NB")
 			return
 		}
-		c0 := e.rec.Count()
-		c, ok := count(2 * time.Second)
-		if !ok || e.rec.Count() != c0 {
-			e.emit("NB")
-			return
+		// after the send completed the loop is either inside processConfigUpdate (holding the lock
+		// GetServerCount needs) or back in its select: wait until it is blocked in one of the two
+		quiesce()
+		for try := 0; try < 6; try++ {
+			c0 := e.rec.Count()
+			c, ok := count(2 * time.Second)
+			if !ok {
+				break
+			}
+			// the value is only used if no event was logged while the call was in flight
+			e.logMu.Lock()
+			if e.rec.Count() == c0 {
+				e.rec.Emit("N:%d", c)
+				e.rec.Emit("S:%s", stateTok(r.GetState()))
+				e.logMu.Unlock()
+				return
+			}
+			e.logMu.Unlock()
+			quiesce()
 		}
-		e.emit("N:%d", c)
-		peek()
+		e.emit("NB")
 	}
 	for _, a := range acts {
 		switch {
@@ -231,6 +250,7 @@ func runnerChild(script string) int {
 			releaseBlocked()
 		case a == "settle":
 			if pushSettled(2 * time.Second) {
+				quiesce()
 				count(2 * time.Second)
 			}
 		case a == "snap":
